@@ -291,7 +291,7 @@ def check_element(tree, progkey, placement, pidx, qidx, inputs, reference,
         dev_any |= needs.dev_any
         host_read |= needs.host_read
         host_written |= needs.host_written
-    needed = D.needed_clauses(need_in, need_out)
+    needed = D.needed_clauses(need_in, need_out, dev_any)
     # -- two-store run with PSyclone's clauses
     bad = []
     absent = {}          # array -> first input with a not-present fault
